@@ -37,7 +37,7 @@ PROPS = {
               'differential correspondence of serialisers and decoders',
  'ref': '§5 C08',
  'proofs': ['Bmc.Proofs.C08'],
- 'scenarios': ['rt', 'rt2'],
+ 'scenarios': ['rt', 'rt2', 'dec:aes,v2none,v2sha1,v2md5,v2sha256,v1session,message,rakp1'],
  'rule': 'rt: message: 7 NetFn classes x every payload length 0..200 (thorough 0..480); v2 wrapper: 4 integrity algorithms x authenticated/not x payload types '
          'incl. OEM x every payload length; AES: every message length. rt2: v1.5 wrapper: authentication type none and 5 other types (16-byte AuthCode) x '
          'every payload length 0..200 (thorough 0..255, 256, 257, 300, 511, 512); RAKP 1: user-name lengths 0..20 x lookup flag x all 16 privilege values. All '
@@ -563,3 +563,9 @@ PROPS["C03"]["claim"] += (" The wrapper, AES and message SERIALISERS are re-tran
                           "(Proofs/GenEnc/{V2Session,Message,AES128CBC}); in the AES serialiser rand.Read (the IV draw) and CBC encryption are parameters of the "
                           "regenerated definition, the latter applied to what b.Bytes()[16:] holds at the time of the call - a slice taken before the PrependBytes "
                           "for the IV (defect F13) makes the translator give up.")
+
+
+# C08's round trips decode what was serialised — also into receivers that have been used before: the regenerated DECODERS of the
+# two-way layers are its obligations too.
+PROPS["C08"]["proofs"] = PROPS["C08"]["proofs"] + ["Bmc.Proofs.GenDec.V2Session", "Bmc.Proofs.GenDec.AES128CBC", "Bmc.Proofs.GenDec.Message",
+                                                   "Bmc.Proofs.GenDec.V1Session", "Bmc.Proofs.GenDec.RAKPMessage1"]
